@@ -20,6 +20,7 @@ NONTRIVIAL = {
     "fp": lambda i: isinstance(i, dict) and any(len(a) > 0 for a in i.get("args", [])),
     "c19": lambda i: isinstance(i, dict) and (len(i.get("s") or []) > 0 or len(i.get("m") or []) > 0 or i.get("op") not in ("parse", "print")),
     "c20": lambda i: isinstance(i, dict) and len(i.get("runes") or []) > 1,
+    "c18": lambda i: isinstance(i, dict) and len(i.get("ops") or []) > 1,
     "c15": lambda i: isinstance(i, dict) and len(i.get("name") or []) > 1,
 }
 
@@ -56,5 +57,12 @@ PROPS = {
         "rule": "corpus + exhaustive texts over {a,' ',newline,e-acute,U+3000,bb} up to 5 symbols (7 thorough) x widths incl. degenerate ones; word-length x separator x width grids; random texts with Unicode blanks and invalid bytes; texts beyond 4KiB and 64KiB; non-trivial = at least 2 runes",
         "level_text": "THEOREMS PENDING (level exploration until they are proved): executable Lean model of bufio.Scanner+splitComment at rune/byte level compared with the real code, and the property as a checker (Phi) evaluated on every implementation output. Planned theorems over all texts, all rune decorations and all widths (also <= 3 and negative): words of the output in order = words of the input, every line marked and non-empty, every multi-word line within the width.",
         "level_note": "Trusted: Lean kernel; utf8.DecodeRune and unicode.IsSpace enter as per-input decoration of the text (theorems hold for every decoration); bufio.Scanner modelled for a reader that delivers the whole text in one read (the buffer is sized len(text)+1 by the code), validated against the real scanner incl. texts > 64KiB; fmt.Fprintln/strings.Fields/Join modelled as marker + blank-separated words.",
+    },
+    "C18": {
+        "engines": [("c18", "main")],
+        "lean": ["PgsVerif.Props.C18"],
+        "rule": "exhaustive operation sequences up to length 5 (7 thorough) over {push p, push q, pushDir x, pushDir a/b, pushDir .., pushDir /abs, pop, popDir} that never pop the root, each on a raw context and through a ModuleBase, plus seeded random histories up to 14 ops with richer directories/prefixes; after every op: OutputPath, JoinPath, Log and Logf lines (recording debugger), Parameters; non-trivial = at least 2 ops",
+        "level_text": "Refinement theorem: for every operation history that never pops the root, the chain of context objects (transcription of rootContext/dirContext/prefixContext and the prefixed debugger) shows exactly the observations of an abstract stack of directory/prefix frames (C18_refines), with corollaries for push/pushDir/pop/popDir/JoinPath/Parameters/log prefixes.",
+        "level_note": "Trusted: Lean kernel; segment-level filepath model (validated by C11's fp engine); fmt.Println/Printf rendering of log lines modelled for verb-free formats; ModuleBase is observed through the same model (its wrappers only reassign the embedded context) - compared by K, not separately modelled. PushDir reads 'joined with that directory, cleaned' as Join(path, Clean(dir)), which differs from Join(path, dir) only for an absolute dir with excess '..' (documented in DESIGN.md).",
     },
 }
